@@ -25,10 +25,13 @@ def run(c):
         "their results are shipped per case; the monitor judges the real decisions against the structure the header bytes were rendered from",
     ]
     return c.finish(
-        rule="random configurations (7x7 normalisation settings, reject/quarantine/ignore actions, identity / single / static / failing tables for "
-        "user_to_email and prepare_email with address, domain and '*' entries in normalised or variant spelling) x connection state (local, "
-        "unauthenticated, user name spelling variants) x messages rendered from a structure: MAIL FROM and 0-3 From / 0-2 Sender fields with "
-        "1-3 addresses, groups, quoted / encoded-word / comment display names that look like addresses, quoted local parts, case / NFD / "
+        rule="random configurations (7x7 normalisation settings, reject/quarantine/ignore actions, identity / single / static / failing / "
+        "email_localpart(_optional) tables for user_to_email and prepare_email with address, domain and '*' entries in normalised or variant "
+        "spelling and entries that name nothing: empty string, bare local part, half an address) x connection state (local, "
+        "unauthenticated, user name spelling variants) x messages rendered from a structure: MAIL FROM (also without a domain: null sender, bare "
+        "postmaster, bare local part, halves) and 0-3 From / 0-2 Sender fields with "
+        "1-3 addresses, groups, quoted / encoded-word (UTF-8 and charsets net/mail does not know) / comment display names that look like "
+        "addresses or decode to RFC 5322 specials, quoted local parts, case / NFD / "
         "fullwidth / A-label spellings, near-miss domains, folding, field-name case, 10% mutated (ill-formed) field bodies; the real check "
         "parses the bytes and decides; the Lean model decides on the shipped parse; distinct = distinct op lines",
         explanation="theorems for all tables, normalisers, header structures of any size; model tied to the code by differential runs; "
